@@ -3,6 +3,8 @@ package main
 import (
 	"context"
 	"fmt"
+	"github.com/criyle/go-sandbox/pkg/rlimit"
+	"golang.org/x/sys/unix"
 	"os"
 	"strconv"
 	"strings"
@@ -85,12 +87,26 @@ func c09run(setup string, argv []string, onPid func(int)) (runner.Result, error)
 		}
 		return nil
 	}
+	// c09core: the program may write a core file (RLIMIT_CORE above zero, writable work directory)
+	coreLimit := []rlimit.RLimit{{Res: unix.RLIMIT_CORE, Rlim: syscall.Rlimit{Cur: 1 << 20, Max: 1 << 20}}}
 	switch setup {
 	case "ptrace":
-		return runPtrace(ctx, argv, func(r *ptrace.Runner) { r.SyncFunc = sync }), nil
+		return runPtrace(ctx, argv, func(r *ptrace.Runner) {
+			r.SyncFunc = sync
+			if c09core {
+				d := tmpDir("c09core")
+				os.Chmod(d, 0777)
+				r.WorkDir, r.RLimits = d, coreLimit
+			}
+		}), nil
 	case "unshare":
 		a := append([]string{"/probe/" + argv0base(argv[0])}, argv[1:]...)
-		return runUnshare(ctx, a, func(r *unshare.Runner) { r.SyncFunc = sync }), nil
+		return runUnshare(ctx, a, func(r *unshare.Runner) {
+			r.SyncFunc = sync
+			if c09core {
+				r.RLimits = coreLimit
+			}
+		}), nil
 	case "container", "container-syncafter":
 		c, err := c09pool.get()
 		if err != nil {
@@ -99,6 +115,9 @@ func c09run(setup string, argv []string, onPid func(int)) (runner.Result, error)
 		p := execveParam(append([]string{"/probe/" + argv0base(argv[0])}, argv[1:]...))
 		p.SyncFunc = sync
 		p.SyncAfterExec = setup == "container-syncafter"
+		if c09core {
+			p.RLimits = coreLimit
+		}
 		res := c.Execve(ctx, p)
 		if res.Status == runner.StatusRunnerError {
 			c09pool.drop() // do not let one broken environment taint later executions
@@ -107,6 +126,11 @@ func c09run(setup string, argv []string, onPid func(int)) (runner.Result, error)
 	}
 	return runner.Result{}, fmt.Errorf("unknown setup %s", setup)
 }
+
+var c09core bool
+
+// signals whose default action also writes a core file
+var c09coreSignals = []int{3, 4, 5, 6, 7, 8, 11, 24, 25, 31}
 
 // c09cancelled runs a pausing program in the pooled container and cancels the call once the program is running.
 func c09cancelled(setup string) (runner.Result, error) {
@@ -153,7 +177,7 @@ func init() {
 		}
 		spec := &mc.Spec{
 			Level: "exploration",
-			Rule: "runner set-up × {exit code, self-raised signal (raw kill, default disposition), kernel-forced fault, SIGKILL from the host while running, " +
+			Rule: "runner set-up × {exit code, self-raised signal (raw kill, default disposition), kernel-forced fault, a core-dumping signal with a core file really written, SIGKILL from the host while running, " +
 				"main action combined with a child that exits/is signalled before, while or after the main process ends, main process stopped (SIGSTOP) and continued by a child before it ends, an ordinary exit after 1..2 caller-cancelled runs in the same container}; oracle = README status table; " +
 				"non-trivial: anything but exit 0; distinct = (set-up, way of ending, observed status/exit value)",
 			Bound: map[string]any{"exit_codes": len(codes), "signals": c09terminating, "faults": faults, "setups": setups,
@@ -167,7 +191,8 @@ func init() {
 		spec.Fini = func() { c09pool.drop(); cleanupTmp() }
 		spec.Body = func(x *mc.X) {
 			setup := x.Pick("setup", setups...)
-			kind := x.Pick("kind", "exit", "raise", "fault", "hostkill", "child", "stopcont", "after-cancelled-runs")
+			kind := x.Pick("kind", "exit", "raise", "fault", "hostkill", "child", "stopcont", "after-cancelled-runs", "raise-with-core-file")
+			c09core = false
 			var argv []string
 			var expS runner.Status
 			expE := -1
@@ -200,6 +225,18 @@ func init() {
 				argv = []string{probe("burn"), "raise", strconv.Itoa(s)}
 				expS, expE = c09expectSignal(s)
 				desc = fmt.Sprintf("raise %d", s)
+			case "raise-with-core-file":
+				// the same classification when the kernel really writes a core file (core limit above zero, writable work
+				// directory): the wait status then carries the core flag
+				if setup == "unshare" {
+					x.Outcome("skipped:namespace-init-discards-own-signals")
+					return
+				}
+				s := c09coreSignals[x.Choose(len(c09coreSignals), "signal")]
+				argv = []string{probe("burn"), "raise", strconv.Itoa(s)}
+				expS, expE = c09expectSignal(s)
+				desc = fmt.Sprintf("raise %d with a core file written", s)
+				c09core = true
 			case "fault":
 				f := faults[x.Choose(len(faults), "fault")]
 				argv = []string{probe("burn"), "fault", f}
